@@ -20,6 +20,7 @@ from propdefs import PROPS  # noqa: E402
 ALLOWED_AXIOMS = {"propext", "Classical.choice", "Quot.sound"}
 FORBIDDEN = re.compile(r"\b(sorry|admit|native_decide|bv_decide|implemented_by|unsafe)\b|^\s*axiom\s|maxHeartbeats\s+0")
 MODULE = "github.com/koordinator-sh/koordinator"
+RUNTAG = str(os.getpid())  # build artefacts are per process, so concurrent runs never share files
 
 
 def goenv():
@@ -229,7 +230,7 @@ def pkg_name_of(pkgdir):
 def write_overlay(pid, pkgs):
     """overlay: harness files + generated common helper + perf_group stub."""
     ov = {}
-    odir = os.path.join(BUILD, "overlay_gen", pid)
+    odir = os.path.join(BUILD, "overlay_gen", pid + "-" + RUNTAG)
     shutil.rmtree(odir, ignore_errors=True)
     os.makedirs(odir, exist_ok=True)
     tmpl = open(os.path.join(VERIF, "harness", "common", "verif_common_test.go.tmpl")).read()
@@ -256,7 +257,7 @@ def build_harness(pid, cfg, log):
     ov = write_overlay(pid, sorted(set(pkgs)))
     os.makedirs(os.path.join(BUILD, "bin"), exist_ok=True)
     for i, h in enumerate(cfg["harness"]):
-        out = os.path.join(BUILD, "bin", f"{pid}_{i}.test")
+        out = os.path.join(BUILD, "bin", f"{pid}_{i}_{RUNTAG}.test")
         if os.path.exists(out):
             os.remove(out)  # never reuse a stale binary
         rc, o, dt = run(["go", "test", "-c", "-tags", "verif", "-vet=off", "-overlay", ov, "-o", out, "./" + h["pkg"]],
@@ -274,7 +275,7 @@ def run_harness(pid, cfg, bins, tier, seed, only_case=None, sub=None):
         name = h.get("name", str(i))
         if sub is not None and name != sub:
             continue
-        outdir = os.path.join(BUILD, "out", pid, name)
+        outdir = os.path.join(BUILD, "out", pid + "-" + RUNTAG, name)
         shutil.rmtree(outdir, ignore_errors=True)
         os.makedirs(outdir, exist_ok=True)
         tmp = os.path.join(BUILD, "tmp")
@@ -353,6 +354,23 @@ def write_replay(pid, name, obj):
     p = os.path.join(d, name + ".json")
     json.dump(obj, open(p, "w"), indent=1)
     return os.path.relpath(p, VERIF)
+
+
+def cleanup(pid, keep_out=False):
+    for f in glob.glob(os.path.join(BUILD, "bin", f"{pid}_*_{RUNTAG}.test")):
+        try:
+            os.remove(f)
+        except OSError:
+            pass
+    shutil.rmtree(os.path.join(BUILD, "overlay_gen", pid + "-" + RUNTAG), ignore_errors=True)
+    outd = os.path.join(BUILD, "out", pid + "-" + RUNTAG)
+    last = os.path.join(BUILD, "out", pid + "-last")
+    if os.path.isdir(outd):
+        shutil.rmtree(last, ignore_errors=True)
+        try:
+            os.replace(outd, last)  # keep only the most recent run's streams for inspection
+        except OSError:
+            shutil.rmtree(outd, ignore_errors=True)
 
 
 def main():
@@ -495,6 +513,7 @@ def main():
 
     # 5. decide
     if replay:
+        cleanup(pid)
         print(json.dumps({"violations": [v[:3] for v in violations], "known": known_lines,
                           "broken": [b["name"] for b in broken]}, indent=1))
         return 1 if (violations or broken) else 0
@@ -546,6 +565,7 @@ def main():
         ev["coverage"]["leanchecker"] = lean["leanchecker"]
     os.makedirs(os.path.join(VERIF, "evidence"), exist_ok=True)
     json.dump(ev, open(os.path.join(VERIF, "evidence", pid + ".json"), "w"), indent=1)
+    cleanup(pid, keep_out=bool(vio_count))
     for l in out_lines:
         print(l)
     print(f"{pid} tier={tier} seed={seed}: obligations {n_ok}/{n_obl}, cases {corr['cases']}, "
